@@ -718,4 +718,177 @@ theorem gridPt_corners (c : ℝ × ℝ) (o : ℝ) (nseg : ℕ) (hn : 0 < nseg) :
   · simp only [d2, m2, w1, s1, div_self hne]; ext <;> simp
   · simp only [d3, m3, w2, s2, div_self hne]; ext <;> simp
 
+/-- the corners of `grid` and the vertices of `vertex`/`vertices`: S, E, N are the same plane points given to
+    `unproj`; W is the same plane point **unless the centre of the cell has abscissa 0** (`b = 4`, `i = j`), where
+    `grid` un-projects `(−1/n, cy)` and `vertex`/`vertices` un-project `(8 − 1/n, cy)` (same point modulo 8). -/
+theorem grid_corners_agree (cfg : Cfg) (d hash b i j nseg : ℕ) (hh : hash < Layer.nHash d)
+    (hdec : Layer.decodeHash cfg d hash = some ⟨b, i, j⟩) (hb : b < 12) (hi : i < 2 ^ d) (hj : j < 2 ^ d) (hn : 0 < nseg) :
+    ∃ l, grid (α := ℝ) cfg d hash nseg = some l ∧ l.length = (nseg + 1) * (nseg + 1) ∧
+      l[0]? = vertex (α := ℝ) cfg d hash 0 ∧
+      l[nseg * (nseg + 1)]? = vertex (α := ℝ) cfg d hash 1 ∧
+      l[nseg * (nseg + 1) + nseg]? = vertex (α := ℝ) cfg d hash 2 ∧
+      (¬ (b = 4 ∧ i = j) → l[nseg]? = vertex (α := ℝ) cfg d hash 3) ∧
+      (b = 4 ∧ i = j → l[nseg]? = some (unprojT (-(1 / 2 ^ d)) (cellCy d b i j)) ∧
+        vertex (α := ℝ) cfg d hash 3 = some (unprojT (8 - 1 / 2 ^ d) (cellCy d b i j))) := by
+  obtain ⟨g0, g3, g1, g2⟩ := gridPt_corners (norm8 (cellCx d b i j), cellCy d b i j) (1 / 2 ^ d) nseg hn
+  obtain ⟨c1, c2, c3, c4, c5⟩ := center_ranges d b i j hb hi hj
+  obtain ⟨n0, n8⟩ := norm8_center_range d b i j hb hi hj
+  have hp := pow_pos' d
+  have ho : 0 < 1 / (2 : ℝ) ^ d := by positivity
+  have lt0 : 0 < (nseg + 1) * (nseg + 1) := Nat.mul_pos (by omega) (by omega)
+  have lt1 : nseg * (nseg + 1) + nseg < (nseg + 1) * (nseg + 1) := by
+    have : (nseg + 1) * (nseg + 1) = nseg * (nseg + 1) + nseg + 1 := by ring
+    omega
+  have lt2 : nseg * (nseg + 1) < (nseg + 1) * (nseg + 1) := by omega
+  have lt3 : nseg < (nseg + 1) * (nseg + 1) := by
+    have : nseg + 1 ≤ (nseg + 1) * (nseg + 1) := Nat.le_mul_of_pos_left _ (by omega)
+    omega
+  have hv := fun k hk => vertex_plane cfg d hash b i j k hh hdec hb hi hj hk
+  have hr := fun k hk => rawVtx_norm d b i j k hb hi hj hk
+  refine ⟨_, grid_plane cfg d hash b i j nseg hh hdec hb hi hj, by simp, ?_, ?_, ?_, ?_, ?_⟩
+  · rw [hv 0 (by decide), ← hr 0 (by decide)]
+    simp only [List.getElem?_map, List.getElem?_range lt0, Option.map_some, g0]
+    have : norm8 (rawVtx (norm8 (cellCx d b i j), cellCy d b i j) (1 / 2 ^ d) 0).1
+        = (rawVtx (norm8 (cellCx d b i j), cellCy d b i j) (1 / 2 ^ d) 0).1 := by
+      apply norm8_of_nonneg; simp [rawVtx, offWe, n0]
+    rw [this]
+  · rw [hv 1 (by decide), ← hr 1 (by decide)]
+    simp only [List.getElem?_map, List.getElem?_range lt2, Option.map_some, g1]
+    have : norm8 (rawVtx (norm8 (cellCx d b i j), cellCy d b i j) (1 / 2 ^ d) 1).1
+        = (rawVtx (norm8 (cellCx d b i j), cellCy d b i j) (1 / 2 ^ d) 1).1 := by
+      apply norm8_of_nonneg; simp only [rawVtx, offWe]; norm_num; positivity
+    rw [this]
+  · rw [hv 2 (by decide), ← hr 2 (by decide)]
+    simp only [List.getElem?_map, List.getElem?_range lt1, Option.map_some, g2]
+    have : norm8 (rawVtx (norm8 (cellCx d b i j), cellCy d b i j) (1 / 2 ^ d) 2).1
+        = (rawVtx (norm8 (cellCx d b i j), cellCy d b i j) (1 / 2 ^ d) 2).1 := by
+      apply norm8_of_nonneg; simp [rawVtx, offWe, n0]
+    rw [this]
+  · intro hne
+    rw [hv 3 (by decide), ← hr 3 (by decide)]
+    simp only [List.getElem?_map, List.getElem?_range lt3, Option.map_some, g3]
+    have : norm8 (rawVtx (norm8 (cellCx d b i j), cellCy d b i j) (1 / 2 ^ d) 3).1
+        = (rawVtx (norm8 (cellCx d b i j), cellCy d b i j) (1 / 2 ^ d) 3).1 := by
+      apply norm8_of_nonneg
+      simp only [rawVtx, offWe]; norm_num
+      -- the centre abscissa is a positive multiple of `1/n`
+      obtain ⟨k1, _⟩ := centerXY_real d b i j
+      set X := (Layer.centerXY d ⟨b, i, j⟩).1 with hX
+      have hXne : X ≠ 0 := by
+        intro h0
+        rw [h0] at k1
+        have hz : norm8 (cellCx d b i j) = 0 := by
+          have : norm8 (cellCx d b i j) * 2 ^ d = 0 := by rw [← k1]; simp
+          exact (mul_eq_zero.mp this).resolve_right (ne_of_gt hp)
+        -- then `cx = 0`, hence `b = 4`, `i = j`
+        have hcx : cellCx d b i j = 0 := by
+          unfold norm8 at hz; split_ifs at hz with hneg
+          · have := cellCx_neg_le d b i j hb hi hj hneg; linarith
+          · exact hz
+        rcases baseX_cases b hb with ⟨h4, hx0⟩ | ⟨hx1, _⟩
+        · apply hne; refine ⟨h4, ?_⟩
+          unfold cellCx at hcx; rw [hx0, zero_add, div_eq_zero_iff] at hcx
+          rcases hcx with h | h
+          · exact_mod_cast sub_eq_zero.mp h
+          · exact absurd h (ne_of_gt hp)
+        · have hi' := cast_lt_pow hi
+          have hj' := cast_lt_pow hj
+          have hi0 : (0 : ℝ) ≤ i := Nat.cast_nonneg i
+          obtain ⟨fx1, _⟩ := frac_bounds d ((i : ℝ) - j) (by linarith) (by linarith)
+          unfold cellCx at hcx; linarith
+      have hXpos : (1 : ℝ) ≤ (X : ℝ) := by
+        have h0 : (0 : ℝ) ≤ (X : ℝ) := by rw [k1]; positivity
+        have : (0 : ℤ) ≤ X := by exact_mod_cast h0
+        have : (1 : ℤ) ≤ X := by omega
+        exact_mod_cast this
+      have : norm8 (cellCx d b i j) = (X : ℝ) / 2 ^ d := by rw [k1]; field_simp
+      rw [this, ← one_div, div_le_div_iff_of_pos_right hp]
+      exact hXpos
+    rw [this]
+  · rintro ⟨h4, hij⟩
+    subst h4; subst hij
+    have hcx : cellCx d 4 i i = 0 := by unfold cellCx baseX; norm_num
+    constructor
+    · simp only [List.getElem?_map, List.getElem?_range lt3, Option.map_some, g3]
+      simp only [rawVtx, offWe, offSn, hcx]
+      norm_num [norm8]
+    · rw [hv 3 (by decide)]
+      simp only [vtx, hcx]
+      have : norm8 (0 - 1 / 2 ^ d) = 8 - 1 / 2 ^ d := by
+        unfold norm8
+        have : (0 : ℝ) - 1 / 2 ^ d < 0 := by linarith
+        simp only [this, if_true]; ring
+      rw [this]
+
+/-- longitude returned by `unproj` in the equatorial band: `x·π/4`, for every `|x| < 8` (negative for `x < 0`) -/
+theorem unprojT_lon_cea (x y : ℝ) (hx : |x| < 8) (hy : |y| ≤ 1) : (unprojT x y).1 = x * (Real.pi / 4) := by
+  obtain ⟨k, hk, hdec, hm1, hp1⟩ := pm1OffsetDecompose_real |x| (abs_nonneg x) hx
+  unfold unprojT
+  simp only [r_abs, hdec, r_le, r_one, hy, decide_true, if_true, r_signBit]
+  unfold deprojCea applyOffsetAndSigns
+  simp only [r_ofNat, r_pi4]
+  have e : |x| - ((2 * k + 1 : ℕ) : ℝ) + ((2 * k + 1 : ℕ) : ℝ) = |x| := by ring
+  rw [e]
+  by_cases h : x < 0
+  · simp only [h, decide_true]
+    show (if true = true then -|(|x|)| else |x|) * (Real.pi / 4) = _
+    rw [if_pos rfl, abs_abs, abs_of_neg h, neg_neg]
+  · simp only [h, decide_false]
+    rw [r_orSign_false, abs_of_nonneg (not_lt.mp h)]
+
+/-- **the west corner of `grid` for the cells `(4, i, i)`** (centre on the meridian 0): `grid` returns the longitude
+    `−π/(4n)` where `vertex`/`vertices` return `2π − π/(4n)` (`grid` does not call `ensures_x_is_positive`). -/
+theorem grid_corner_W_base4 (cfg : Cfg) (d hash i nseg : ℕ) (hh : hash < Layer.nHash d)
+    (hdec : Layer.decodeHash cfg d hash = some ⟨4, i, i⟩) (hi : i < 2 ^ d) (hn : 0 < nseg) :
+    ∃ l pg pv, grid (α := ℝ) cfg d hash nseg = some l ∧ l[nseg]? = some pg ∧ vertex (α := ℝ) cfg d hash 3 = some pv ∧
+      pg.1 = -(Real.pi / 4 / 2 ^ d) ∧ pv.1 = 2 * Real.pi - Real.pi / 4 / 2 ^ d := by
+  obtain ⟨l, hl, _, _, _, _, _, hw⟩ := grid_corners_agree cfg d hash 4 i i nseg hh hdec (by decide) hi hi hn
+  obtain ⟨h1, h2⟩ := hw ⟨rfl, rfl⟩
+  obtain ⟨c1, c2, c3, c4, c5⟩ := center_ranges d 4 i i (by decide) hi hi
+  have hp := pow_pos' d
+  have ho : 0 < 1 / (2 : ℝ) ^ d := by positivity
+  have ho1 : 1 / (2 : ℝ) ^ d ≤ 1 := by
+    rw [div_le_one hp]; exact one_le_pow₀ (by norm_num)
+  have hcy : |cellCy d 4 i i| ≤ 1 := by
+    have hi' := cast_lt_pow hi
+    have hi0 : (0 : ℝ) ≤ i := Nat.cast_nonneg i
+    obtain ⟨f1, f2⟩ := frac_bounds d ((i : ℝ) + i + 1 - 2 ^ d) (by linarith) (by linarith)
+    unfold cellCy baseY
+    norm_num
+    rw [abs_le]; constructor <;> linarith
+  refine ⟨l, _, _, hl, h1, h2, ?_, ?_⟩
+  · rw [unprojT_lon_cea _ _ (by rw [abs_neg, abs_of_pos ho]; linarith) hcy]; ring
+  · rw [unprojT_lon_cea _ _ (by rw [abs_of_nonneg (by linarith)]; linarith) hcy]; ring
+
+/-! ## examples (the hypotheses are satisfiable) -/
+
+/-- depth 2, cell 73 = base cell 4, `(i, j) = (1, 2)`: `cx = −1/4 < 0`, the centre is `(7.75, 0)` -/
+example : centerOfProjectedCell (α := ℝ) {} 2 73 = some (31 / 4, 0) := by
+  have hd : Layer.decodeHash {} 2 73 = some ⟨4, 1, 2⟩ := by decide +kernel
+  rw [center_eq {} 2 73 4 1 2 (by decide) hd (by decide)]
+  unfold cellCx cellCy baseX baseY norm8
+  norm_num
+
+/-- depth 2, cell 77 = base cell 4, `(i, j) = (3, 2)`: all accessors succeed -/
+example : ∃ s e n w : ℝ × ℝ, vertices (α := ℝ) {} 2 77 = some [s, e, n, w] ∧ vertex (α := ℝ) {} 2 77 0 = some s ∧
+    vertex (α := ℝ) {} 2 77 1 = some e ∧ vertex (α := ℝ) {} 2 77 2 = some n ∧ vertex (α := ℝ) {} 2 77 3 = some w :=
+  vertices_agree {} 2 77 4 3 2 (by decide) (by decide +kernel) (by decide) (by decide) (by decide)
+
+/-- depth 0, cell 4 (`i = j = 0`): the west corner of the grid has longitude `−π/4`, the west vertex `7π/4` -/
+example : ∃ l pg pv, grid (α := ℝ) {} 0 4 1 = some l ∧ l[1]? = some pg ∧ vertex (α := ℝ) {} 0 4 3 = some pv ∧
+    pg.1 = -(Real.pi / 4 / 2 ^ 0) ∧ pv.1 = 2 * Real.pi - Real.pi / 4 / 2 ^ 0 :=
+  grid_corner_W_base4 {} 0 4 0 1 (by decide) (by decide +kernel) (by decide) (by decide)
+
+#print axioms center_plane_spec
+#print axioms vertices_agree
+#print axioms sph_coo_plane
+#print axioms sph_coo_half
+#print axioms path_side_plane
+#print axioms path_side_endpoints
+#print axioms path_edge_plane
+#print axioms sidePt_on_border
+#print axioms grid_plane
+#print axioms grid_corners_agree
+#print axioms grid_corner_W_base4
+
 end Hpx.CellReal
